@@ -70,10 +70,13 @@ Qed.
 Lemma parse_port_iff p : (exists n, parse_port p = Some n) <-> Port p.
 Proof.
   unfold parse_port, Port. split.
-  - intros [n H]. destruct (parse_dec p) as [m|] eqn:E; [|discriminate].
+  - intros [n H]. destruct (5 <? len p) eqn:L5; [discriminate|].
+    destruct (parse_dec p) as [m|] eqn:E; [|discriminate].
     apply parse_dec_iff in E as [A ->].
-    destruct (dec_value 0 p <=? 65535) eqn:L; [|discriminate]. apply N.leb_le in L. auto.
-  - intros [A L]. exists (dec_value 0 p).
+    destruct (dec_value 0 p <=? 65535) eqn:L; [|discriminate]. apply N.leb_le in L.
+    apply N.ltb_ge in L5. unfold len in L5. repeat split; try assumption; try apply A. lia.
+  - intros (A & L5 & L). exists (dec_value 0 p).
+    assert (E5 : (5 <? len p) = false) by (apply N.ltb_ge; unfold len; lia). rewrite E5.
     assert (E : parse_dec p = Some (dec_value 0 p)) by (apply parse_dec_iff; auto).
     rewrite E. apply N.leb_le in L. rewrite L. reflexivity.
 Qed.
